@@ -130,6 +130,11 @@ def matrix():
     cases.append(("top-level-scalar", "hello\n"))
     cases.append(("empty", ""))
     cases.append(("only-comment", "# nothing\n"))
+    for b_ in range(256):
+        cases.append(("byte-%02x" % b_, bytes([b_]).decode("utf-8", "surrogateescape")))
+    for bs_ in (b"\xef\xbb", b"\xef\xbb\xbf", b"\xef\xbb\xbfparameters: {p: 1}\n", b"\xef\xbb\xbf\xef\xbb\xbf", b"\xff\xfe", b"\xfe\xff", b"\xff\xfep\x00:\x00 \x001\x00", b"\x00\x00\xfe\xff",
+                b"\xef\xbbx", b"\xef", b"\xc3", b"\xe2\x82", b"\xf0\x9f\x98", b"\r", b"\r\n", b"\n\n\n", b"\t", b"--", b"---", b"...", b"%", b"%Y", b"&", b"*", b"!", b"|", b">", b"'", b"\"", b"{", b"[", b"?", b":", b"-", b"- ", b"? ", b": "):
+        cases.append(("bytes-%s" % bs_.hex()[:16], bs_.decode("utf-8", "surrogateescape")))
     cases.append(("nul-byte", "parameters: {p: \"a\\0b\"}\n"))
     # (bytes that are not UTF-8 travel to the tool exactly: surrogateescape here, a hex marker on the wire)
     cases.append(("invalid-utf8", b"parameters: {p: \"\xff\xfe\"}\n".decode("utf-8", "surrogateescape")))
